@@ -57,16 +57,19 @@ def mask_of(code, gcode):
 
 
 class Src(fm.TimeComponent):
-    def __init__(self, name, info, payload):
+    def __init__(self, name, info, payload, repush=False):
         super().__init__()
-        self._name, self.info0, self.payload = name, info, payload
+        self._name, self.info0, self.payload, self.repush = name, info, payload, repush
         self._time = T0
 
     def _next_time(self):
         return self.time + H(1)
 
     def _initialize(self):
-        self.outputs.add(name="out", info=self.info0)
+        if self.repush:
+            self.outputs.add(name="out")  # metadata handed to try_connect, again on every call
+        else:
+            self.outputs.add(name="out", info=self.info0)
         self.create_connector()
 
     def _connect(self, st):
@@ -79,7 +82,7 @@ class Src(fm.TimeComponent):
                 payload = mg.encode_points(g.data_points).reshape(g.data_shape, order=g.order)
             else:
                 payload = np.arange(float(g.data_shape[0])) if (g.dim == 1 and g.data_shape[0] > 0) else 7.0
-        self.try_connect(st, push_data={} if payload is None else {"out": payload})
+        self.try_connect(st, push_infos={"out": self.info0.copy()} if self.repush else {}, push_data={} if payload is None else {"out": payload})
 
     def _validate(self):
         pass
@@ -92,20 +95,60 @@ class Src(fm.TimeComponent):
 
 
 class Dst(fm.TimeComponent):
-    def __init__(self, name, info):
+    def __init__(self, name, info, late=None):
         super().__init__()
-        self._name, self.info0 = name, info
+        self._name, self.info0, self.late = name, info, late
+        self._time = T0
+        self.rounds = 0
+
+    def _next_time(self):
+        return self.time + H(1)
+
+    def _initialize(self):
+        if self.late:
+            self.inputs.add(name="in")  # metadata handed to try_connect once the other consumer has exchanged its own
+        else:
+            self.inputs.add(name="in", info=self.info0)
+        self.create_connector(pull_data=["in"])
+
+    def _connect(self, st):
+        self.rounds += 1
+        ex = {}
+        if self.late and self.late() and self.connector.in_infos["in"] is None:
+            ex = {"in": self.info0}
+        self.try_connect(st, exchange_infos=ex)
+
+    def _validate(self):
+        pass
+
+    def _update(self):
+        self._time = self._next_time()
+
+    def _finalize(self):
+        pass
+
+
+class Relay(fm.TimeComponent):
+    """takes everything from its input by transfer rule and republishes it on two outputs, each with one own metadata key"""
+
+    def __init__(self, name):
+        super().__init__()
+        self._name = name
         self._time = T0
 
     def _next_time(self):
         return self.time + H(1)
 
     def _initialize(self):
-        self.inputs.add(name="in", info=self.info0)
-        self.create_connector(pull_data=["in"])
+        self.inputs.add(name="in", time=None, grid=None, units=None)
+        self.outputs.add(name="out")
+        self.outputs.add(name="out2")
+        rules = {o: [fm.tools.FromInput("in"), fm.tools.FromValue("origin", f"relay-{o}")] for o in ("out", "out2")}
+        self.create_connector(pull_data=["in"], out_info_rules=rules)
 
     def _connect(self, st):
-        self.try_connect(st)
+        d = self.connector.in_data["in"]
+        self.try_connect(st, push_data={} if d is None else {"out": d, "out2": d})
 
     def _validate(self):
         pass
@@ -145,7 +188,7 @@ class C07(Property):
         "product over producer x consumer of time {set, unset}, grid {unset, G, G re-laid-out, other geometry, NoGrid}, units {m, km, s; consumer "
         "also unset}, mask {FLEX, NONE, fixed A, fixed B; consumer also unset}, extra metadata key {value, to-be-filled, absent}; one or two "
         "consumers (first requester fills, second checked), listing orders, pass-through and metadata-rewriting adapters (Scale, ValueToGrid, "
-        "GridToValue, RegridNearest, SumOverTime). non-trivial = >=1 field filled from the other side or >=1 conflict present; distinct by full "
+        "GridToValue, RegridNearest, SumOverTime) and a relaying component that republishes its input's metadata by transfer rule on two outputs with one own key each. non-trivial = >=1 field filled from the other side or >=1 conflict present; distinct by full "
         "combination"
     )
     assumptions = (
@@ -179,12 +222,21 @@ class C07(Property):
                     c["units"] = rnd.choice([None, "m", "km"]) if p["units"] in ("m", "km") else rnd.choice([None, p["units"]])
                 if rnd.random() < 0.8:
                     c["mask"] = rnd.choice(["FLEX", None, p["mask"], "rawA" if p["mask"] == "A" else p["mask"]])
-        adapter = rnd.choice([None, None, None, "scale", "scale", "v2g", "g2v", "regrid", "sum"])
+        adapter = rnd.choice([None, None, None, "scale", "scale", "v2g", "g2v", "regrid", "sum", "relay"])
         if ncons == 2 and adapter not in (None, "scale"):
             adapter = None
+        if adapter == "relay" and rnd.random() < 0.7:
+            p.update(time=True, grid=p["grid"] or "G", mask="FLEX", foo=rnd.choice(["absent", "value"]))
+            if rnd.random() < 0.7:
+                cons[0]["grid"] = rnd.choice([None, p["grid"]])
         order = list(range(1 + ncons))
         rnd.shuffle(order)
-        return dict(prod=p, cons=cons, adapter=adapter, order=order)
+        spec = dict(prod=p, cons=cons, adapter=adapter, order=order)
+        if adapter in (None, "scale") and rnd.random() < 0.25:
+            # producer hands its metadata to every try_connect call; consumers may declare theirs some rounds late
+            spec["repush"] = True
+            spec["late"] = rnd.choice([None, 0, 1]) if ncons == 2 else None
+        return spec
 
     # ------------------------------------------------------------------------------
     def expected(self, spec):
@@ -206,6 +258,9 @@ class C07(Property):
         for c in cons:
             cgrid, punits, pmask = c["grid"], p["units"], p["mask"]
             src_grid = pgrid
+            if ada == "relay" and (not ptime or pgrid is None or pfoo == "fill" or pmask != "FLEX"):
+                # the relay takes everything from the producer: only fully declared producers are judged through it
+                return "unconstrained", None, True
             if ada == "v2g":
                 # producer must be grid-less; adapter output grid comes from the consumer
                 if pgrid not in (None, "N0"):  # ValueToGrid asks its source for 0-D data
@@ -289,7 +344,7 @@ class C07(Property):
         else:
             # a producer that leaves its grid to the consumer publishes in the consumer's grid
             payload = None if p["grid"] is None else (np.arange(3.0) if p["grid"] == "N1a" else (np.arange(5.0) if p["grid"] == "N1b" else 7.0))
-        prod = Src("P", pinfo, payload)
+        prod = Src("P", pinfo, payload, repush=bool(spec.get("repush")))
         dsts = []
         for k, c in enumerate(cons):
             try:
@@ -297,12 +352,25 @@ class C07(Property):
             except fm.FinamMetaDataError:
                 out.count("consumer_info_not_constructible")
                 return out
-            dsts.append(Dst(f"C{k}", cinfo))
+            late = None
+            if spec.get("late") == k:
+                late = lambda other=1 - k: dsts[other].connector.in_infos["in"] is not None
+            dsts.append(Dst(f"C{k}", cinfo, late=late))
         comps = [prod] + dsts
-        composition = fm.Composition([comps[i] for i in spec["order"]], print_log=False, log_level=logging.CRITICAL + 10)
+        listed = [comps[i] for i in spec["order"]]
+        relay = sink2 = None
+        if ada == "relay":
+            relay, sink2 = Relay("R"), Dst("S2", fm.Info(time=None, grid=None, units=None))
+            listed = listed + [relay, sink2] if spec["order"][0] == 0 else [sink2, relay] + listed
+        composition = fm.Composition(listed, print_log=False, log_level=logging.CRITICAL + 10)
         adas = []
         for d in dsts:
             x = prod.outputs["out"]
+            if relay is not None:
+                x >> relay.inputs["in"]
+                relay.outputs["out2"] >> sink2.inputs["in"]
+                relay.outputs["out"] >> d.inputs["in"]
+                continue
             if ada:
                 a = {"scale": lambda: fm.adapters.Scale(1.0), "v2g": lambda: fm.adapters.ValueToGrid(None), "g2v": lambda: fm.adapters.GridToValue(np.mean),
                      "regrid": fm.adapters.RegridNearest, "sum": lambda: fm.adapters.SumOverTime(per_time=True)}[ada]()
@@ -319,7 +387,9 @@ class C07(Property):
             got, msg = "other:" + type(e).__name__, str(e)
         out.count("exchanges")
         out.count("adapter_" + str(ada))
-        tag = f"producer {p}, consumer(s) {cons}, adapter {ada}, order {spec['order']}"
+        if spec.get("repush"):
+            out.count("metadata_handed_over_on_every_round")
+        tag = f"producer {p}, consumer(s) {cons}, adapter {ada}, order {spec['order']}" + (f", producer re-hands its metadata every round, consumer {spec['late']} declares its metadata after the other one has exchanged" if spec.get("repush") else "")
         if exp_outcome == "unconstrained":
             out.notes.append("unconstrained combination -> " + got.split(":")[0])
             out.count("unconstrained_combinations")
@@ -375,7 +445,7 @@ class C07(Property):
                 # 6. the datum pulled at connect matches the agreed metadata
                 data = d.connector.in_data["in"]
                 mag = data.magnitude
-                if e["grid"] in GRIDS and ada in (None, "scale"):
+                if e["grid"] in GRIDS and ada in (None, "scale", "relay"):
                     expv = o_convert(mg.located(GRIDS[e["grid"]]), p["units"], e["units"])
                     keep = ~located_mask(e["grid"], 0.0 if e["mask"] == "A" else 1.0) if e["mask"] in ("A", "B") else np.ones(expv.shape, bool)
                     if mag.shape != (1,) + expv.shape or not np.allclose(np.ma.getdata(mag)[0][keep], expv[keep], rtol=1e-9):
@@ -385,6 +455,21 @@ class C07(Property):
                         out.viol("delivered_mask_vs_metadata", f"C{k}: delivered mask differs from the agreed fixed mask; {tag}", spec=spec)
                         return out
                     out.count("data_checked_against_metadata")
+            if relay is not None:
+                # the relay's own link ends: its input agrees with the producer, each output carries its own key only
+                rin, o1, o2 = relay.inputs["in"].info, relay.outputs["out"].info, relay.outputs["out2"].info
+                want_meta = dict(units=fm.UNITS.Unit(p["units"]), **({"foo": "P-foo"} if p["foo"] == "value" else {}))
+                if dict(rin.meta) != want_meta or not (rin.grid == grid_of(p["grid"])):
+                    out.viol("relay_input_metadata", f"input of the relaying component reports meta {dict(rin.meta)} grid {rin.grid}, its link carries {want_meta} / {p['grid']}; {tag}", spec=spec)
+                    return out
+                got_o = (o1.meta.get("origin"), o2.meta.get("origin"), dsts[0].inputs["in"].info.meta.get("origin"), sink2.inputs["in"].info.meta.get("origin"))
+                if got_o != ("relay-out", "relay-out2", "relay-out", "relay-out2"):
+                    out.viol("relay_output_metadata", f"metadata keys set per output by transfer rule arrive as {got_o}; {tag}", spec=spec)
+                    return out
+                if prod.outputs["out"].info.meta.get("origin") is not None:
+                    out.viol("relay_input_metadata", f"producer output info gained the relay's key: {dict(prod.outputs['out'].info.meta)}; {tag}", spec=spec)
+                    return out
+                out.count("relay_links_checked")
             # output side: unset fields carry the consumers' values
             oinfo = prod.outputs["out"].info
             if oinfo.grid is None or oinfo.time is None or any(v is None for v in oinfo.meta.values()):
@@ -393,14 +478,14 @@ class C07(Property):
         else:
             out.count("rejected_exchanges")
         if filled or conflict:
-            out.key = repr((p, cons, ada, len(cons) > 1 and spec["order"]))
+            out.key = repr((p, cons, ada, len(cons) > 1 and spec["order"], spec.get("repush") and (1, spec["late"])))
         if len(cons) == 2:
             out.count("two_consumer_cases")
         return out
 
     def coverage_gaps(self, counters, tier):
         need = ["exchanges", "successful_exchanges", "rejected_exchanges", "two_consumer_cases", "fixed_mask_metadata_checked", "data_checked_against_metadata",
-                "adapter_None", "adapter_scale", "adapter_v2g", "adapter_g2v", "adapter_regrid", "adapter_sum"]
+                "adapter_None", "adapter_scale", "adapter_v2g", "adapter_g2v", "adapter_regrid", "adapter_sum", "adapter_relay", "relay_links_checked", "metadata_handed_over_on_every_round"]
         return [f"{k} never observed" for k in need if not counters.get(k)]
 
 
